@@ -25,6 +25,7 @@ ASSUMPTIONS = [
     "bool is accepted wherever int is (it is an int)",
     "rejection = any exception; no exception type is pinned",
 ]
+CHAIN_STRIDE = {'quick': 6, 'thorough': 6}      # every k-th shard is re-run in chains inside one process (non-initial process states)
 BOUNDS = {"quick": "all classes, all destinations, instance bytes at kind boundaries, 2-byte specials on a 20x20 grid, event fields/data at boundaries",
           "thorough": "full argument product (195 instance bytes, 256x256, all event fields, all 1024 illuminance values)"}
 
